@@ -537,6 +537,8 @@ Proof.
   - rewrite sem_app, (sem_member_noinc _ None _ _ I). cbn [sem sem_cmd sink_out app]. reflexivity.
   - now rewrite sem_member_allow.
   - rewrite sem_app, (sem_member_noinc _ None _ _ I). cbn [sem sem_cmd sink_out app]. reflexivity.
+  - rewrite sem_app. cbn [sem sem_cmd]. rewrite sem_app, (sem_member_noinc _ None _ _ I).
+    cbn [sem sem_cmd sink_out app]. rewrite sem_members_allow. reflexivity.
 Qed.
 
 Lemma init_thread_at : forall sc i o,
